@@ -290,6 +290,24 @@ def run(ctx, rep):
                    "source=%s clones=%s" % ([mir.short(x.callee()) for x in oc], [x.res for x in cl]), c.span, fn=f.path,
                    key="C11.shared-instance|%s|seed@%s" % (mir.short(f.path), "miss" if "new_file" in [f.local_name(x) for x in rules.chain_locals(f, op_local(oc[0].args[0]))] else "hit") if oc else None)
 
+    # ---- 3b. a module is in the cache from the moment its file is known ----------------
+    # The entry of module_cache made when the file is opened (its export table still empty, and shared) is what marks the module as
+    # *initialising*: an import of it from inside its own top-level code (an import cycle) is a cache hit, and the module body is not entered a
+    # second time.  Without it both modules of a cycle run twice ("Double export").  process_jump_request's insert after the run comes too late.
+    INS = "std::collections::hash::map::HashMap::insert"
+    fiu = [c for c in addf.calls_to(INS) if any(fs and fs[0] == "files_in_use" for (_, fs) in rules.trace_paths(addf, op_local(c.args[0]), transparent=PASS))]
+    mci = {c.bb for c in addf.calls_to(INS) if any(fs and fs[0] == "module_cache" for (_, fs) in rules.trace_paths(addf, op_local(c.args[0]), transparent=PASS))}
+    rep.floor("C11.once|initialising-mark files_in_use inserts in Program::add_file", len(fiu), 1)
+    rets = {i for i, blk in enumerate(addf.blocks) if blk["t"]["k"] == "return"}
+    for i, c in enumerate(fiu):
+        before = any(addf.dominates(b, c.bb) for b in mci)
+        after = not (addf.reachable(c.target, removed_blocks=mci) & rets) if c.target is not None else False
+        rep.ob("C11.once", "Program::add_file: a file that becomes known is entered into module_cache on the same path (the mark of a module that is initialising)",
+               "ok" if before or after else "violated",
+               "" if before or after else "the file is registered in files_in_use and add_file returns without an entry in module_cache: a module imported again while its own "
+               "top-level code runs (an import cycle between two files read from disk) is a cache miss and runs a second time, then dies with `Double export`",
+               c.span, fn=addf.path, key="C11.once|initialising-mark#%d" % i)
+
     # ---- 4. exports are write-once -------------------------------------------------
     muts = []
     for f in F.crates["bytecode"].fns:
